@@ -152,6 +152,7 @@ def run(ctx):
 # ---------------------------------------------------------------------------
 # S-ENC.wf: every built-in Encode impl writes exactly one item tree; iterator adapters are balanced
 
+import re
 from . import summaries
 from .derive_rules import parse_tree, fmt_items
 
@@ -189,6 +190,27 @@ def wellformed(ctx, prog):
                 ctx.violation('S-ENC.wf', key + '|extra', 'emission %s continues after a complete item (more than one item / unbalanced header)' % fmt_items(ev)[:200], where)
             else:
                 ctx.ok('S-ENC.wf', key)
+            # S-ENC.coll: a definite header whose count is the length of a collection is followed by that collection's own
+            # iteration: "the value given" for a sequence is its elements in its order, not some other traversal
+            for a, b in zip(ev, ev[1:]):
+                if a[0] == 'ITEM' and a[1] in ('ARRAY', 'MAP') and b[0] == 'REP_BEGIN' and not (isinstance(a[2], Int) and a[2].is_const()):
+                    cnt = repr(a[2])
+                    mm = re.match(r'^<?len\((.*)\)>?$', cnt) or re.match(r'^<?(.*)\.len>?$', cnt)
+                    announced = mm.group(1) if mm else cnt
+                    it = str(b[1])
+                    while True:
+                        m2 = re.match(r'^(?:iter|into_iter|iter_mut)\((.*)\)$', it)
+                        if not m2:
+                            break
+                        it = m2.group(1)
+                    norm = lambda x: x.rstrip('*').lstrip('&')
+                    if (mm and norm(it) == norm(announced)) or (cnt.strip('<>').startswith('const:') and norm(it) == 'self'):
+                        # (a const generic N announced for `[T; N]` iterated whole is its length by type)
+                        ctx.ok('S-ENC.coll', key)
+                    elif t in ('minicbor::encode::ArrayIter<I>', 'minicbor::encode::MapIter<I>'):
+                        ctx.ok('S-ENC.coll', key + '|iter-adapter', nontrivial=False)      # S-ENC.iter below
+                    else:
+                        ctx.violation('S-ENC.coll', key, 'the header announces %s but the elements written come from the traversal `%s`: for a sequence the value given is its elements in its own order' % (cnt, b[1]), where)
     ctx.floor('S-ENC.wf', 'impls', len(impls), 95 if prog.feature('std') else (85 if prog.feature('alloc') else 75))
     # iterator adapters: definite header only under an exact size hint; otherwise begin .. break
     for t in ('minicbor::encode::ArrayIter<I>', 'minicbor::encode::MapIter<I>'):
